@@ -22,14 +22,14 @@ CLAIMED = {
              "and L0 draft-4 function; proved: the agreement theorem L1 verdict = L0 verdict on a decidable fragment (type, enum, numeric, "
              "string keywords, formats next to a numeric type or a type list accepting strings, items / tuple / additionalItems, min/maxItems, "
              "uniqueItems, properties (defaults only on members that are not required) / required / additionalProperties / min/maxProperties, "
-             "dependencies, allOf, anyOf, oneOf, not, chains of references, at every depth; JSON data, with null admitted when the schema has no "
+             "patternProperties, dependencies, allOf, anyOf, oneOf, not, chains of references and guarded recursive definitions, at every depth; JSON data, with null admitted when the schema has no "
              "allOf/anyOf/oneOf/not and arrays admitted when formats sit next to type lists accepting arrays) for every oracle, environment and "
              "numeric implementation whose order is total and equality symmetric on the numbers involved - by induction on the nesting depth "
              "through every keyword group - and instantiated for the Flocq binary64 instance the tie runs; no IMPORTANT!-tagged error is ever "
              "produced on data without 'headers' members (needed by oneOf); the decision procedure is proved sound and evaluated on every case "
-             "(about 72% of the quick run lies inside); the one-shot wrapper = validator verdict; validity of merged results; one refutation "
+             "(about 74% of the quick run lies inside); the one-shot wrapper = validator verdict; validity of merged results; one refutation "
              "witness per recorded finding class (the unrestricted statement is false of the faithful model). Outside the proved fragment "
-             "(formats without or against the type list, patternProperties, recursive definitions, null under composition, typed carriers) "
+             "(formats without or against the type list, patterns that do not compile, null under composition, typed carriers) "
              "agreement is decided per case by the L0 function evaluated in exact arithmetic (partial). Tie: L1 vs Go on verdicts (and all richer observables), and "
              "Go vs L0 in exact decimal arithmetic on every case, classified against the recorded finding classes.",
         note=TB + "Axioms: the agreement theorems are axiom-free; their binary64 instance and the refutation witnesses use Flocq and inherit the stdlib real-number axioms, classic and "
